@@ -225,7 +225,7 @@ Qed.
    sealing model reaches from a freshly loaded configuration kc by any list l of injections. *)
 Theorem binding_fields st now lim q u c :
   certgen expand st now lim q = Issued u c ->
-  (exists level, proves now q u level) /\
+  (exists level, proves st now q u level) /\
   d_names c = [s_name st u] /\ q_target q = s_name st u /\
   (exists ed, q_key q = Some (d_key c, ed)) /\
   d_user_type c = true /\ d_is_ca c = false /\
@@ -251,7 +251,7 @@ Qed.
 Theorem binding kc l st now lim q u c :
   s_keys st = Seal.inject_all kc (Seal.sealed_init kc) l ->
   certgen expand st now lim q = Issued u c ->
-  (exists level, proves now q u level) /\
+  (exists level, proves st now q u level) /\
   d_names c = [s_name st u] /\ q_target q = s_name st u /\
   (exists ed, q_key q = Some (d_key c, ed)) /\
   d_user_type c = true /\ d_is_ca c = false /\
@@ -268,7 +268,7 @@ Qed.
 (* a request on behalf of any other name: whoever the request authenticates as, if that name is
    not byte for byte the URL segment nothing is issued; an otherwise qualified one gets 403 *)
 Theorem other_user_refused st now lim q u level iat :
-  check_auth now lim bAny (auth_request q) = Admit u level iat ->
+  check_auth now lim bAny (auth_request st q) = Admit u level iat ->
   s_name st u <> q_target q ->
   (exists code, certgen expand st now lim q = Refused code /\ 400 <= code) /\
   (s_sealed st = false -> qualifies (s_cfg st) level -> certgen expand st now lim q = Refused 403).
